@@ -102,10 +102,11 @@ func main() {
 		cov.mu.Unlock()
 	}
 	// Safety caps for the thorough tier only (the quick tier is never cut, so its
-	// counts do not depend on the machine): no new stream task is started after
-	// streamBudget, no new channel depth after chanBudget when the projected time
-	// of the level would not fit.  A cap sets exhaustive=false and is reported.
-	streamBudget, chanBudget := 7*time.Minute, 13*time.Minute+30*time.Second
+	// counts do not depend on the machine): no new stream task is started once the
+	// stream part has run for streamBudget (or the run for streamLatest), no new
+	// channel depth after chanBudget when the projected time of the level would
+	// not fit.  A cap sets exhaustive=false and is reported.
+	streamBudget, streamLatest, chanBudget := 7*time.Minute+30*time.Second, 10*time.Minute, 13*time.Minute+30*time.Second
 
 	// (a) man in the middle, lying endpoints
 	t0 := time.Now()
@@ -187,14 +188,14 @@ func main() {
 	progress(fmt.Sprintf("stream tasks: %d", len(st)))
 	var streamSkipped int64
 	core.Par(len(st), func(i int) {
-		if !run.Quick() && time.Since(run0) > streamBudget {
+		if !run.Quick() && (time.Since(t4) > streamBudget || time.Since(run0) > streamLatest) {
 			atomic.AddInt64(&streamSkipped, 1)
 			return
 		}
 		c.runStreamTask(st[i], maxR)
 	})
 	if streamSkipped > 0 {
-		addCap(fmt.Sprintf("stream: time cap %v reached, %d of %d (write sequence, first read buffer) tasks not run (tasks are ordered by number of writes: the <=%d-write space is complete if the skipped tasks are fewer than the %d-write ones)", streamBudget, streamSkipped, len(st), maxW-1, maxW))
+		addCap(fmt.Sprintf("stream: time cap (%v for the part, %v into the run) reached, %d of %d (write sequence, first read buffer) tasks not run (tasks are ordered by number of writes: the <=%d-write space is complete if the skipped tasks are fewer than the %d-write ones)", streamBudget, streamLatest, streamSkipped, len(st), maxW-1, maxW))
 	}
 	c.samples.Add(kase{Part: "stream", Writes: []int{2}, Reads: []int{1, 1}})
 	timed("stream", t4)
